@@ -190,7 +190,8 @@ def job_witness(name):
     X = np.vstack([rng.normal(size=(4, 2)) + 3, rng.normal(size=(4, 2)) - 3])
     configs = []
     if name == "Kauri":
-        configs = [dict(max_clusters=2), dict(max_clusters=3, max_depth=2, min_samples_leaf=2, min_samples_split=4), dict(max_clusters=4, max_leaves=3, max_features=1, random_state=0)]
+        configs = [dict(max_clusters=2), dict(max_clusters=3, max_depth=2, min_samples_leaf=2, min_samples_split=4), dict(max_clusters=4, max_leaves=3, max_features=1, random_state=0),
+                   dict(max_clusters=2, max_features=2), dict(max_clusters=2, max_features=3), dict(max_clusters=3, max_features=9, random_state=1)]
     else:
         base = dict(n_clusters=2, max_iter=2, random_state=0)
         for solver in ("adam", "sgd"):
